@@ -372,7 +372,17 @@ impl VM {
                 }
                 OpCode::Call => {
                     let num_args = self.read_u8();
-                    let base_pointer = self.stack.len() as u16 - 1 - num_args as u16;
+
+                    // The base pointer of a call frame is 16 bits wide, so a call frame can not start beyond that.
+                    // (This is also what ends a recursion that never ends.)
+                    let base_pointer = match u16::try_from(self.stack.len() - 1 - num_args as usize) {
+                        Ok(base_pointer) => base_pointer,
+                        Err(_) => {
+                            return Err(Error::IndexError(
+                                "de stapel is vol (te diepe recursie?)".to_string(),
+                            ))
+                        }
+                    };
                     let obj = self.pop();
                     if obj.tag() != Type::Function {
                         return Err(Error::TypeError(format!(
